@@ -124,6 +124,12 @@ def worker(chunk):
             r = f(tr, sem if infrag and 'error' not in sem else None)
             if r and (infrag or pid in monitors.EVERYWHERE):
                 viol[pid] = r[:3]
+        for pid in want:
+            hyp = monitors.HYPOTHESES.get(pid)
+            if hyp and not div:
+                hv = hyp(tr)
+                if hv:
+                    div = {'why': hv[0], 'at': -1}
         if tr.get('lock_slow_path'):
             div = div or {'why': 'asyncio.Lock took its slow path (the model assumes it never does)', 'at': -1}
         rec = {
@@ -132,7 +138,7 @@ def worker(chunk):
             'handles': tr['handles'], 'verdict': tr['verdict'],
             'result': lockstep.outcome_str(tr['results'][0]) if tr['results'] and tr['results'][0] else None,
             'n_nodes': len(tr['graph']['nodes']), 'div': div, 'viol': viol,
-            'sched': desc[0], 'enum_complete': item.get('_enum_complete'),
+            'sched': desc[0], 'enum_complete': item.get('_enum_complete'), 'stats': tr.get('stats', {}),
         }
         if div or viol:
             rec['spec'] = tr['spec']
@@ -198,6 +204,8 @@ PROFILES = {
     'C04': dict(monitors=['C04'], profiles=('shared', 'mixed', 'rec', 'shared', 'mixed', 'switch', 'oneof', 'plain'), q=1800, t=20000),
     'C05': dict(monitors=['C05'], profiles=('plain', 'oneof', 'mixed', 'switch', 'rec', 'shared'), q=1800, t=20000,
                 fail_p=0.35),
+    'C06': dict(monitors=['C06'], profiles=('plain',), q=1500, t=15000, fail_p=0.05, hold=True, n_min=5,
+                modes=('coro', 'thread', 'process', 'coro', 'inline')),
     'C09': dict(monitors=['C09', 'C01'], profiles=('switch', 'mixed', 'shared'), q=1800, t=20000),
     'C10': dict(monitors=['C10', 'C01'], profiles=('oneof', 'mixed', 'shared'), q=1800, t=20000, fail_p=0.3),
     'C11': dict(monitors=['C11', 'C01', 'C03'], profiles=('rec', 'mixed', 'shared'), q=1800, t=20000),
@@ -230,6 +238,9 @@ def summarize(recs):
         s['by_sched'][r['sched']] = s['by_sched'].get(r['sched'], 0) + 1
         res = (r['result'] or r['verdict']).split(' ')[0]
         s['by_result'][res] = s['by_result'].get(res, 0) + 1
+        for k, v in (r.get('stats') or {}).items():
+            s.setdefault('stats', {})
+            s['stats'][k] = s['stats'].get(k, 0) + v
         if r['div']:
             s['divergences'] += 1
         if r['viol']:
@@ -247,7 +258,12 @@ def main_for(pid, tier_):
     enum = 12 if tier_ == 'quick' else 40
     items = corpus_items(prof['monitors']) + general_items(
         C.seed(), n, tier_, profiles=prof['profiles'], monitors_=prof['monitors'], enum_limit=enum,
-        fail_p=prof.get('fail_p', 0.15), n_max=8 if tier_ == 'quick' else 10)
+        fail_p=prof.get('fail_p', 0.15), n_max=8 if tier_ == 'quick' else 10, modes=prof.get('modes', ('coro',)), n_min=prof.get('n_min', 3))
+    if prof.get('hold'):
+        # C06: run to idleness, check, then let one body / timer complete (the other bodies stay held open)
+        rng = random.Random(C.seed() * 37 + 5)
+        for it in items:
+            it['schedules'] = it['schedules'][:2] + [['hold_depth', rng.randrange(1 << 30)] for _ in range(3)]
     if prof.get('cancel'):
         # C13: the caller is cancelled before every loop handle of a base schedule (exhaustive per run)
         rng = random.Random(C.seed() * 31 + 13)
@@ -274,6 +290,7 @@ def finish(pid, tier_, recs, aud, T, prof, rule, extra_cov=None):
         'loop_handles_compared': s['handles'], 'in_fragment_traces': s['infrag'],
         'by_shape': s['by_shape'], 'by_schedule_kind': s['by_sched'], 'by_result': s['by_result'],
         'disagreements_checked': s['divergences'], 'monitor_hits': s['monitor_hits'],
+        'monitor_stats': s.get('stats', {}),
         'rule': rule,
         'samples': [{k: r.get(k) for k in ('profile', 'pseed', 'shape', 'sched', 'handles', 'result', 'infrag')}
                     for r in recs[:3] if 'harness_error' not in r],
